@@ -194,7 +194,9 @@ impl<'a, TId: ArenaId, TValue> Iterator for MappingIter<'a, TId, TValue> {
 
     fn next(&mut self) -> Option<Self::Item> {
         loop {
-            if self.offset >= self.mapping.len {
+            // Visit every slot up to the highest id that was ever inserted. (The number of
+            // stored values is not a bound: ids can be sparse.)
+            if self.offset > self.mapping.max {
                 return None;
             }
 
